@@ -39,7 +39,41 @@ var (
 const (
 	acAccPrefix = "accum||acc||"
 	acPosPrefix = "accum||pos||"
+	acNSlots    = 8 // live *AccumulatorObject handles h0..h7
 )
+
+// acTok renders a position / accumulator name on an op line (the line protocol splits on blanks, so the
+// empty name is written `""`; no generated name contains a blank).
+func acTok(n string) string {
+	if n == "" {
+		return `""`
+	}
+	return n
+}
+
+// acWorld: the names one history draws from.  Prefix relations between position names (numeric ids "7","70",
+// "700"; "a","ab"), names next to / containing the key separator characters, the empty and very long names,
+// and accumulators whose names are prefixes of each other in the same store.  No accumulator name ends in "|"
+// and no position name starts with "|": with those two the key layout `acc||pos` is ambiguous (finding F60,
+// shown by the separate probe acProbeKeyCollision), and the engine would judge two positions as one record.
+type acWorld struct {
+	name string
+	accs []string
+	pos  []string
+	bad  []string
+}
+
+var acLong = strings.Repeat("L", 180)
+
+var acWorlds = []acWorld{
+	{"classic", []string{"a0", "a1", "a2"}, []string{"p0", "p1", "p2", "p3", "p4", "p5"}, []string{"x||y"}},
+	{"numeric-prefix", []string{"acc", "acc1", "acc10"}, []string{"7", "70", "71", "700", "8", "17"}, []string{"acc||pos", "acc||"}},
+	{"alpha-prefix", []string{"a", "ab", "a0"}, []string{"a", "ab", "abc", "b", "ab0", "a0"}, []string{"a||b"}},
+	{"separator", []string{"s", "s|t", "su"}, []string{"x", "x|", "x||", "x||y", "x|y", "x||y||z"}, []string{"s||", "||", "s||t"}},
+	{"empty-and-long", []string{"e", "e" + acLong[:40], "e" + acLong[:41]}, []string{"", "0", acLong, acLong + "1", acLong[:179], "00"}, []string{"e||" + acLong}},
+	{"acc-prefix-of-pos-key", []string{"acc", "acc1", "ac"}, []string{"1", "1||7", "7", "acc", "acc1||7", "70"}, []string{"acc1||7"}},
+}
+
 
 // ---------------------------------------------------------------- encodings
 
@@ -258,21 +292,30 @@ func (op *acOp) line() string {
 	case "grow":
 		return "accum grow " + hs + " " + acFmt(op.coins)
 	case "newpos":
-		return fmt.Sprintf("accum newpos %s %s %s %d", hs, op.pos, op.shares, op.opt)
+		return fmt.Sprintf("accum newpos %s %s %s %d", hs, acTok(op.pos), op.shares, op.opt)
 	case "newposint":
-		return fmt.Sprintf("accum newposint %s %s %s %s %d", hs, op.pos, op.shares, acFmt(op.coins), op.opt)
+		return fmt.Sprintf("accum newposint %s %s %s %s %d", hs, acTok(op.pos), op.shares, acFmt(op.coins), op.opt)
 	case "addpos", "rempos", "updpos":
-		return fmt.Sprintf("accum %s %s %s %s", op.kind, hs, op.pos, op.shares)
+		return fmt.Sprintf("accum %s %s %s %s", op.kind, hs, acTok(op.pos), op.shares)
 	case "addposint", "remposint", "updposint":
-		return fmt.Sprintf("accum %s %s %s %s %s", op.kind, hs, op.pos, op.shares, acFmt(op.coins))
+		return fmt.Sprintf("accum %s %s %s %s %s", op.kind, hs, acTok(op.pos), op.shares, acFmt(op.coins))
 	case "setint", "addunclaimed":
-		return fmt.Sprintf("accum %s %s %s %s", op.kind, hs, op.pos, acFmt(op.coins))
+		return fmt.Sprintf("accum %s %s %s %s", op.kind, hs, acTok(op.pos), acFmt(op.coins))
 	case "claim", "delete", "getpos", "possize", "haspos", "rewards":
-		return fmt.Sprintf("accum %s %s %s", op.kind, hs, op.pos)
+		return fmt.Sprintf("accum %s %s %s", op.kind, hs, acTok(op.pos))
 	case "value", "total":
 		return fmt.Sprintf("accum %s %s", op.kind, hs)
 	}
 	panic("accum engine: unknown op kind " + op.kind)
+}
+
+// acHasPos: op kinds that carry a position name.
+func acHasPos(k string) bool {
+	switch k {
+	case "newpos", "newposint", "haspos":
+		return true
+	}
+	return acIsPosOp(k)
 }
 
 func acIsGetter(k string) bool {
@@ -319,14 +362,30 @@ type acEng struct {
 	target int
 
 	db    dbadapter.Store
-	slots [3]*accum.AccumulatorObject
+	slots [acNSlots]*accum.AccumulatorObject
 	st    *acState
-	hs    [3]string
+	hs    [acNSlots]string
 	// poison[h]: a panicking call left handle h mutated (DeletePosition's in-place SubMut before its
 	// range check). Persisting such a handle (AddToAccumulator writes the cached total back unchecked)
 	// makes the stored accumulator undecodable = corrupted data, out of scope: the handle is re-fetched
 	// before its next use.
-	poison [3]bool
+	poison [acNSlots]bool
+
+	// naming world of the history (see acWorlds): candidate accumulator names, position names, rejected
+	// accumulator names; universe = every raw key the generated ops of this history can touch
+	world    string
+	accNames []string
+	posNames []string
+	badNames []string
+	universe []string
+	slotOf   map[string]int // mode `one`: the long-lived handle of an accumulator
+
+	// shadow: the engine's own plain map acc -> position -> shares, updated from the op ARGUMENTS of
+	// successful calls only (never read back from the store or the model)
+	shadow   map[string]map[string]*big.Int
+	shadowOn bool
+	// stale-handle facts of the op being run (set by run before the call)
+	curStaleTotal, curStaleValue bool
 
 	mode, base string
 	judged     bool
@@ -356,22 +415,30 @@ func acHS(h *accum.AccumulatorObject) string {
 	return h.GetName() + "/" + acFmtDC(h.GetValue()) + "/" + acRawStr(h.GetTotalShares())
 }
 
-// acKeyUniverse: every raw key the generated ops can touch (the iterator of the
-// in-memory DB is expensive, so per-op snapshots read these keys directly; every
-// dump does a full store.Iterator(nil,nil) pass and cross-checks the snapshot).
-var acKeyUniverse = func() []string {
+// setWorld fixes the names of the history and the key universe: every raw key the generated ops can touch
+// (the iterator of the in-memory DB is expensive, so per-op snapshots read these keys directly; every dump does a
+// full store.Iterator(nil,nil) pass and cross-checks the snapshot, so a key outside the universe is noticed).
+func (e *acEng) setWorld(w acWorld) {
+	e.world, e.accNames, e.posNames, e.badNames = w.name, w.accs, w.pos, w.bad
+	seen := map[string]bool{}
 	var ks []string
-	for _, a := range []string{"a0", "a1", "a2", "x||y"} {
-		ks = append(ks, acAccPrefix+a)
+	add := func(k string) {
+		if !seen[k] {
+			seen[k] = true
+			ks = append(ks, k)
+		}
 	}
-	for _, a := range []string{"a0", "a1", "a2"} {
-		for i := 0; i < 6; i++ {
-			ks = append(ks, fmt.Sprintf("%s%s||p%d", acPosPrefix, a, i))
+	for _, a := range append(append([]string{}, w.accs...), w.bad...) {
+		add(acAccPrefix + a)
+	}
+	for _, a := range w.accs {
+		for _, p := range w.pos {
+			add(acPosPrefix + a + "||" + p)
 		}
 	}
 	sort.Strings(ks)
-	return ks
-}()
+	e.universe = ks
+}
 
 // readRaw returns the raw key/value snapshot, by full iteration or by direct reads.
 func (e *acEng) readRaw(full bool) map[string]string {
@@ -384,7 +451,7 @@ func (e *acEng) readRaw(full bool) map[string]string {
 		it.Close()
 		return raw
 	}
-	for _, k := range acKeyUniverse {
+	for _, k := range e.universe {
 		if v := e.db.Get([]byte(k)); v != nil {
 			raw[k] = string(v)
 		}
@@ -449,8 +516,10 @@ func (e *acEng) emit(line, obs string, nontrivial bool) {
 
 func (e *acEng) reset() {
 	e.db = dbadapter.Store{DB: dbm.NewMemDB()}
-	e.slots = [3]*accum.AccumulatorObject{}
-	e.poison = [3]bool{}
+	e.slots = [acNSlots]*accum.AccumulatorObject{}
+	e.poison = [acNSlots]bool{}
+	e.shadow = map[string]map[string]*big.Int{}
+	e.shadowOn = true
 	e.st = nil
 	e.refresh(true)
 	e.led = map[string]*acAccLed{}
@@ -688,11 +757,17 @@ func (e *acEng) run(op *acOp) acRes {
 	before, hb := e.st, e.hs
 	hname, pkey := "", ""
 	var prec *acPosRec
+	e.curStaleTotal, e.curStaleValue = false, false
 	if op.kind != "make" && op.kind != "get" {
 		hname = e.slots[op.h].GetName()
-		if op.pos != "" {
-			pkey = string(accum.FormatPositionPrefixKey(hname, op.pos))
+		if acHasPos(op.kind) { // NB the empty string is a position name like any other
+			pkey = acPosPrefix + hname + "||" + op.pos
 			prec = before.pos[pkey]
+		}
+		if a := before.acc[acAccPrefix+hname]; a != nil {
+			hd := e.slots[op.h]
+			e.curStaleTotal = acBig(hd.GetTotalShares()).Cmp(a.total) != 0
+			e.curStaleValue = !acCoinsEq(acFromDC(hd.GetValue()), a.val)
 		}
 	}
 	// keep every argument inside the LegacyDec range (a larger value would be stored
@@ -739,10 +814,11 @@ func (e *acEng) fail(key string, op *acOp, r acRes, extra string) {
 		e.judged = false
 		e.o.Count("history.unjudged-after-failure")
 	}
-	e.o.Fail(key, fmt.Sprintf("mode=%s line#%d op=%q obs=%q %s", e.mode, e.o.n, op.line(), r.obs, extra))
+	e.shadowOn = false
+	e.o.Fail(key, fmt.Sprintf("mode=%s world=%s line#%d op=%q obs=%q %s", e.mode, e.world, e.o.n, op.line(), r.obs, extra))
 }
 
-func (e *acEng) oracle(op *acOp, r acRes, before *acState, hb [3]string, hname, pkey string, prec *acPosRec) {
+func (e *acEng) oracle(op *acOp, r acRes, before *acState, hb [acNSlots]string, hname, pkey string, prec *acPosRec) {
 	k := op.kind
 	after := e.st
 	sameRaw := acRawEq(before.raw, after.raw)
@@ -814,6 +890,9 @@ func (e *acEng) oracle(op *acOp, r acRes, before *acState, hb [3]string, hname, 
 			e.fail("should-fail:get:unknown", op, r, "")
 		}
 	}
+
+	// whole-store oracle against the engine's own shadow map: every history that keeps the discipline
+	e.storeOracle(op, r, before, hb, hname, pkey)
 
 	if !e.judged {
 		return
@@ -1059,6 +1138,231 @@ func (e *acEng) oracle(op *acOp, r acRes, before *acState, hb [3]string, hname, 
 		return // nothing changed: invariants hold as before
 	}
 	e.checkInvariants(op, r, hname)
+}
+
+// relOf: how the record under raw key `key` relates to the op's accumulator `hname` and position `pos`.
+func (e *acEng) relOf(hname, pos string, hasPos bool, key string) string {
+	if strings.HasPrefix(key, acAccPrefix) {
+		if key == acAccPrefix+hname {
+			return "own-accumulator-record"
+		}
+		return "other-accumulator-record"
+	}
+	own := acPosPrefix + hname + "||"
+	if !strings.HasPrefix(key, own) {
+		return "position-of-other-accumulator"
+	}
+	if !hasPos {
+		return "position-of-own-accumulator"
+	}
+	other := key[len(own):]
+	switch {
+	case other == pos:
+		return "own-position"
+	case strings.HasPrefix(other, pos):
+		return "other-position-whose-name-extends-the-ops-position-name"
+	case strings.HasPrefix(pos, other):
+		return "other-position-whose-name-is-a-prefix-of-the-ops-position-name"
+	}
+	return "other-position"
+}
+
+// storeOracle: after EVERY op of a history that keeps the property's discipline (modes fresh, one, stale):
+//   * for every position of the engine's shadow map (plain Go map fed by the op arguments of successful calls)
+//     the record exists with the expected shares, and no other record exists;
+//   * every made accumulator still has its record;
+//   * mode stale (ops routed through possibly stale handles; the reward ledger is not judged there because the
+//     code writes a handle's cached VALUE back): no record other than the op's own accumulator / position record
+//     changed, and the op did not change `recorded total shares - sum of position shares` of ANY accumulator.
+// The first failure ends the shadow's judgement of the history (one root cause, one report).
+func (e *acEng) storeOracle(op *acOp, r acRes, before *acState, hb [acNSlots]string, hname, pkey string) {
+	if e.mode == "wild" || !e.shadowOn {
+		return
+	}
+	k := op.kind
+	after := e.st
+	if r.res == "panic" {
+		if !acRawEq(before.raw, after.raw) { // callers revert a panicking call; the engine's store keeps the partial write
+			e.shadowOn = false
+			e.o.Count("shadow.stopped-by-panic-with-effect")
+		}
+		return
+	}
+	if r.res != "ok" {
+		return
+	}
+	stale := e.mode == "stale"
+	bad := func(key, extra string) {
+		e.shadowOn = false
+		e.o.Fail(key, fmt.Sprintf("mode=%s world=%s line#%d op=%q obs=%q stale-total=%v stale-value=%v %s",
+			e.mode, e.world, e.o.n, op.line(), r.obs, e.curStaleTotal, e.curStaleValue, extra))
+	}
+	// ---- 1. the shadow follows the op
+	hasPos := acHasPos(k)
+	sh := e.shadow[hname]
+	if k != "make" && k != "get" && sh == nil {
+		bad("store:ok-on-unknown-accumulator:"+k, "acc="+hname)
+		return
+	}
+	switch k {
+	case "make":
+		e.shadow[op.name] = map[string]*big.Int{}
+	case "newpos", "newposint":
+		sh[op.pos] = new(big.Int).Set(op.shares)
+	case "addpos", "addposint", "rempos", "remposint", "updpos", "updposint":
+		cur := sh[op.pos]
+		if cur == nil {
+			bad("store:ok-on-unknown-position:"+k, "")
+			return
+		}
+		d := new(big.Int).Set(op.shares)
+		if k == "rempos" || k == "remposint" {
+			d.Neg(d)
+		}
+		sh[op.pos] = new(big.Int).Add(cur, d)
+	case "claim":
+		cur := sh[op.pos]
+		if cur == nil {
+			bad("store:ok-on-unknown-position:"+k, "")
+			return
+		}
+		if cur.Sign() == 0 {
+			delete(sh, op.pos)
+			// does another live position's name extend the claimer's name?
+			ext := "no-other-name-extends-claimer"
+			for pn := range sh {
+				if strings.HasPrefix(pn, op.pos) {
+					ext = "another-name-extends-claimer"
+					break
+				}
+			}
+			e.o.Count("claim.zero-shares." + ext)
+		}
+	case "delete":
+		if sh[op.pos] == nil {
+			bad("store:ok-on-unknown-position:"+k, "")
+			return
+		}
+		delete(sh, op.pos)
+		for pn := range sh {
+			if strings.HasPrefix(pn, op.pos) {
+				e.o.Count("delete.another-name-extends-deleted")
+				break
+			}
+		}
+	case "setint", "addunclaimed", "getpos", "possize", "rewards":
+		if sh[op.pos] == nil {
+			bad("store:ok-on-unknown-position:"+k, "")
+			return
+		}
+	}
+	e.o.Count("shadow.ops")
+	if acRawEq(before.raw, after.raw) {
+		return // nothing written: the store is as judged before
+	}
+	// ---- 2. whole store == shadow
+	n := 0
+	for an, ps := range e.shadow {
+		if after.acc[acAccPrefix+an] == nil {
+			bad("store:accumulator-record-missing:"+k+":"+e.relOf(hname, op.pos, hasPos, acAccPrefix+an), "acc="+an)
+			return
+		}
+		for pn, want := range ps {
+			n++
+			key := acPosPrefix + an + "||" + pn
+			rec := after.pos[key]
+			if rec == nil {
+				bad("store:position-missing:"+k+":"+e.relOf(hname, op.pos, hasPos, key), fmt.Sprintf("acc=%q pos=%q expected-shares=%s", an, pn, want))
+				return
+			}
+			if rec.shares.Cmp(want) != 0 {
+				bad("store:shares:"+k+":"+e.relOf(hname, op.pos, hasPos, key), fmt.Sprintf("acc=%q pos=%q stored=%s expected=%s", an, pn, rec.shares, want))
+				return
+			}
+		}
+	}
+	if n != len(after.pos) {
+		for key := range after.pos {
+			p := after.pos[key]
+			if ps := e.shadow[p.acc]; ps == nil || ps[p.pos] == nil {
+				bad("store:unexpected-position:"+k+":"+e.relOf(hname, op.pos, hasPos, key), fmt.Sprintf("key=%q", key))
+				return
+			}
+		}
+	}
+	if !stale {
+		return // fresh / one: frame, totals and the reward ledger are judged by the ledger oracle below
+	}
+	e.o.Count("stale.judged-ops")
+	if e.curStaleTotal {
+		e.o.Count("stale.op-through-handle-with-stale-total." + k)
+	}
+	if e.curStaleValue {
+		e.o.Count("stale.op-through-handle-with-stale-value")
+	}
+	// ---- 3. frame: only the op's own accumulator / position record may change
+	allowed := map[string]bool{}
+	switch k {
+	case "make":
+		allowed[acAccPrefix+op.name] = true
+	case "grow":
+		allowed[acAccPrefix+hname] = true
+	case "newpos", "newposint", "addpos", "addposint", "rempos", "remposint", "updpos", "updposint", "delete":
+		allowed[acAccPrefix+hname], allowed[pkey] = true, true
+	case "setint", "addunclaimed", "claim":
+		allowed[pkey] = true
+	}
+	for key, v := range before.raw {
+		if w, ok := after.raw[key]; !allowed[key] && (!ok || w != v) {
+			bad("frame:"+k+":"+e.relOf(hname, op.pos, hasPos, key), fmt.Sprintf("changed=%q", key))
+			return
+		}
+	}
+	for key := range after.raw {
+		if _, ok := before.raw[key]; !ok && !allowed[key] {
+			bad("frame:"+k+":"+e.relOf(hname, op.pos, hasPos, key), fmt.Sprintf("created=%q", key))
+			return
+		}
+	}
+	for i := range hb {
+		if hb[i] != e.hs[i] && i != op.h {
+			bad("frame:"+k+":other-handle", fmt.Sprintf("handle h%d", i))
+			return
+		}
+	}
+	// ---- 4. recorded total shares - sum of position shares: unchanged by the op, for every accumulator
+	disc := func(st *acState) map[string]*big.Int {
+		d := map[string]*big.Int{}
+		for _, a := range st.acc {
+			d[a.name] = new(big.Int).Set(a.total)
+		}
+		for _, p := range st.pos {
+			if x := d[p.acc]; x != nil {
+				x.Sub(x, p.shares)
+			}
+		}
+		return d
+	}
+	db, da := disc(before), disc(after)
+	for an, x := range da {
+		y := db[an]
+		if y == nil {
+			y = new(big.Int)
+		}
+		if x.Cmp(y) != 0 {
+			cls := "cached-total-current"
+			if e.curStaleTotal {
+				cls = "cached-total-differs-from-store"
+			}
+			if an != hname && k != "make" {
+				cls += ":other-accumulator"
+			}
+			// NB no early end of the judgement: after a (known) stale write the discrepancy stays and every
+			// later op is still judged on the CHANGE it makes
+			e.o.Fail("total-ne-sum:stale-handle:"+k+":"+cls, fmt.Sprintf("mode=%s world=%s line#%d op=%q obs=%q acc=%q total-minus-sum before=%s after=%s handle-before=%s",
+				e.mode, e.world, e.o.n, op.line(), r.obs, an, y, x, hb[op.h]))
+		}
+	}
 }
 
 // settleInexact: does the code's half-even rounding of (V-ref)_d * shares lose anything?
@@ -1436,8 +1740,7 @@ func (e *acEng) livePos(name string) []string {
 
 func (e *acEng) deadPos(name string) []string {
 	var out []string
-	for i := 0; i < e.nPos; i++ {
-		pn := fmt.Sprintf("p%d", i)
+	for _, pn := range e.posNames[:e.nPos] {
 		if e.st.pos[acPosPrefix+name+"||"+pn] == nil {
 			out = append(out, pn)
 		}
@@ -1452,7 +1755,7 @@ func (e *acEng) pickPos(name string, pExisting int) (string, bool) {
 	wantLive := g.Intn(100) < pExisting
 	if (wantLive && len(live) > 0) || len(dead) == 0 {
 		if len(live) == 0 {
-			return "p0", false
+			return e.posNames[0], false
 		}
 		return live[g.Intn(len(live))], true
 	}
@@ -1506,7 +1809,7 @@ func (e *acEng) pickSlot() (h int, name string, needGet bool) {
 		return g.Intn(3), e.accs[g.Intn(len(e.accs))], true
 	case "one":
 		name = e.accs[g.Intn(len(e.accs))]
-		return int(name[1] - '0'), name, false
+		return e.slotOf[name], name, false
 	default: // stale
 		var filled []int
 		for i, s := range e.slots {
@@ -1555,16 +1858,19 @@ func (e *acEng) makeAcc(name string) {
 	}
 	if g.Intn(25) == 0 {
 		e.o.Count("malformed.make-badname")
-		e.run(&acOp{kind: "make", name: "x||y"})
+		e.run(&acOp{kind: "make", name: e.badNames[g.Intn(len(e.badNames))]})
 	}
 	if e.base == "one" && r.res == "ok" {
-		e.get(int(name[1]-'0'), name)
+		if _, ok := e.slotOf[name]; !ok {
+			e.slotOf[name] = len(e.slotOf)
+		}
+		e.get(e.slotOf[name], name)
 	}
 }
 
 func (e *acEng) unmadeAcc() string {
-	for _, i := range e.g.r.Perm(3) {
-		n := fmt.Sprintf("a%d", i)
+	for _, i := range e.g.r.Perm(len(e.accNames)) {
+		n := e.accNames[i]
 		found := false
 		for _, a := range e.accs {
 			if a == n {
@@ -1614,7 +1920,15 @@ func (e *acEng) history() {
 		e.profile = "smalldec"
 	}
 	e.ovf = g.Intn(1000) < 8 || (e.mode == "wild" && g.Intn(4) == 0)
-	e.nPos = 2 + g.Intn(5)
+	// naming world: the classic names keep a third of the histories
+	wi := 0
+	if g.Intn(3) != 0 {
+		wi = 1 + g.Intn(len(acWorlds)-1)
+	}
+	e.setWorld(acWorlds[wi])
+	e.slotOf = map[string]int{}
+	e.o.Count("world." + e.world)
+	e.nPos = 2 + g.Intn(len(e.posNames)-1)
 	e.nDen = 1 + g.Intn(3)
 	e.o.Count("mode." + e.mode)
 	e.o.Count("profile." + e.profile)
@@ -1622,23 +1936,25 @@ func (e *acEng) history() {
 		e.o.Count("history.overflow-amounts")
 	}
 
-	nAcc := 1 + g.Intn(3)
-	perm := g.r.Perm(3)
+	nAcc := 1 + g.Intn(len(e.accNames))
+	perm := g.r.Perm(len(e.accNames))
 	for i := 0; i < nAcc; i++ {
-		e.makeAcc(fmt.Sprintf("a%d", perm[i]))
+		e.makeAcc(e.accNames[perm[i]])
 	}
 	if e.base == "stale" {
-		// two or three slots, at least two of them on the same accumulator
+		// 2-4 live handles on one accumulator, the remaining slots (if any) on the others; the handles drift
+		// apart in time through the refreshes of pickSlot and the ops routed through the others
 		a := e.accs[g.Intn(len(e.accs))]
-		ns := 2 + g.Intn(2)
-		sl := g.r.Perm(3)[:ns]
-		for j, s := range sl {
-			nm := a
-			if j == 2 && g.Intn(2) == 0 {
-				nm = e.accs[g.Intn(len(e.accs))]
-			}
-			e.get(s, nm)
+		ns := 2 + g.Intn(3)
+		sl := g.r.Perm(acNSlots)
+		for _, s := range sl[:ns] {
+			e.get(s, a)
 		}
+		extra := g.Intn(acNSlots - ns)
+		for _, s := range sl[ns : ns+extra] {
+			e.get(s, e.accs[g.Intn(len(e.accs))])
+		}
+		e.o.Count(fmt.Sprintf("stale.handles-on-one-accumulator=%d", ns))
 	}
 	e.dump()
 
@@ -1664,6 +1980,10 @@ func (e *acEng) step() {
 		e.wildStep()
 		return
 	}
+	if g.Intn(25) == 0 {
+		e.stepDirected()
+		return
+	}
 	x := g.Intn(100)
 	switch {
 	case x < 25:
@@ -1684,6 +2004,56 @@ func (e *acEng) step() {
 		e.stepGetter()
 	default:
 		e.stepMalformed()
+	}
+}
+
+// stepDirected: the paths on which a position DISAPPEARS, aimed at positions whose name is a prefix of another
+// live name when there is one: remove-all then claim (zero-share claim path), delete, claim right after the
+// position was created with zero shares.
+func (e *acEng) stepDirected() {
+	g := e.g
+	h, name, ng := e.pickSlot()
+	live := e.livePos(name)
+	if len(live) == 0 {
+		e.stepNewPos()
+		return
+	}
+	// prefer a name that some other live name extends
+	pos := live[g.Intn(len(live))]
+	var pre []string
+	for _, a := range live {
+		for _, b := range live {
+			if a != b && strings.HasPrefix(b, a) {
+				pre = append(pre, a)
+				break
+			}
+		}
+	}
+	if len(pre) > 0 && g.Intn(4) != 0 {
+		pos = pre[g.Intn(len(pre))]
+		e.o.Count("directed.target-name-is-prefix-of-live-name")
+	}
+	switch g.Intn(3) {
+	case 0, 1:
+		e.o.Count("directed.remove-all-then-claim." + e.world)
+		if held := e.held(name, pos); held.Sign() > 0 {
+			kind := "rempos"
+			op := &acOp{kind: kind, pos: pos, shares: held}
+			switch g.Intn(3) {
+			case 0:
+				op.kind, op.coins = "remposint", e.interval(name, pos)
+			case 1:
+				op.kind, op.shares = "updpos", new(big.Int).Neg(held)
+			}
+			if r := e.handleOp(h, name, ng, op); r.res != "ok" {
+				return
+			}
+			ng = e.base == "fresh"
+		}
+		e.claimOn(h, name, ng, "claim", pos)
+	default:
+		e.o.Count("directed.delete." + e.world)
+		e.claimOn(h, name, ng, "delete", pos)
 	}
 }
 
@@ -1925,7 +2295,7 @@ func (e *acEng) stepMalformed() {
 			e.run(&acOp{kind: "make", name: e.accs[g.Intn(len(e.accs))]})
 		case 1:
 			e.o.Count("malformed.make-badname")
-			e.run(&acOp{kind: "make", name: "x||y"})
+			e.run(&acOp{kind: "make", name: e.badNames[g.Intn(len(e.badNames))]})
 		default:
 			if n := e.unmadeAcc(); n != "" {
 				e.o.Count("malformed.get-unknown")
@@ -1990,10 +2360,56 @@ func (e *acEng) wildStep() {
 	}
 }
 
+// acProbeKeyCollision: the position key is `accum||pos||<acc>||<pos>` with no escaping.  An accumulator name
+// may end in "|" and a position name may start with "|" (only "||" INSIDE an accumulator name is rejected), so
+// ("k|", "p") and ("k", "|p") are one store key.  Oracle-only probe on its own store (the model keys records by
+// the pair and the histories avoid such names): two positions of two accumulators must be two records.
+func acProbeKeyCollision(o *Out) {
+	db := dbadapter.Store{DB: dbm.NewMemDB()}
+	o.Count("probe.key-collision")
+	for _, c := range [][4]string{{"k", "|p", "k|", "p"}, {"k", "p", "k1", "p"}, {"k", "|", "k|", ""}} {
+		ok := catch(func() {
+			for _, a := range []string{c[0], c[2]} {
+				if !db.Has([]byte(acAccPrefix + a)) {
+					if err := accum.MakeAccumulator(db, a); err != nil {
+						panic(err)
+					}
+				}
+			}
+			ha, _ := accum.GetAccumulator(db, c[0])
+			hb, _ := accum.GetAccumulator(db, c[2])
+			if err := ha.NewPosition(c[1], acDec(pow10(18)), nil); err != nil {
+				panic(err)
+			}
+			if err := hb.NewPosition(c[3], acDec(new(big.Int).Mul(big.NewInt(5), pow10(18))), nil); err != nil {
+				panic(err)
+			}
+			sa, ea := ha.GetPositionSize(c[1])
+			sb, eb := hb.GetPositionSize(c[3])
+			if ea != nil || eb != nil || acBig(sa).Cmp(pow10(18)) != 0 || acBig(sb).Cmp(new(big.Int).Mul(big.NewInt(5), pow10(18))) != 0 {
+				cls := "other-names"
+				if strings.HasSuffix(c[2], "|") && strings.HasPrefix(c[1], "|") {
+					cls = "accumulator-name-ends-and-position-name-starts-with-separator-char"
+				}
+				o.Fail("key-collision:"+cls, fmt.Sprintf("NewPosition(acc=%q,pos=%q,1) then NewPosition(acc=%q,pos=%q,5): sizes read back %s / %s (errors %v / %v)",
+					c[0], c[1], c[2], c[3], acRawStr(sa), acRawStr(sb), ea, eb))
+			}
+			// leave the store clean for the next pair
+			ha.DeletePosition(c[1])
+			hb2, _ := accum.GetAccumulator(db, c[2])
+			hb2.DeletePosition(c[3])
+		})
+		if !ok {
+			o.Fail("key-collision:probe-panicked", fmt.Sprint(c))
+		}
+	}
+}
+
 func runAccum(seed int64, n int, dir string) {
 	o := NewOut(dir)
 	g := &Gen{r: rand.New(rand.NewSource(seed))}
 	e := &acEng{g: g, o: o, target: n}
+	acProbeKeyCollision(o)
 	nHist := 0
 	for o.n < n {
 		e.history()
